@@ -65,7 +65,15 @@ for label in sorted(set(CONF) | set(CHK)):
             "checks_run_quick": k["checks"], "detected_by": detected, "not_detected_by": missed, "first_reports": k["what"][:4],
             "how_checks_were_run": "tools/try_patch.sh: git -C /repo apply patch.diff; ./check <Cxx> --tier quick; git -C /repo checkout -- .",
         }
-        json.dump(meta, open(os.path.join(dst, "meta.json"), "w"), indent=1)
+        mp = os.path.join(dst, "meta.json")
+        if os.path.exists(mp):
+            try:
+                old_history = json.load(open(mp)).get("history")
+                if old_history:
+                    meta["history"] = old_history   # hand-written note on how the checks evolved; keep it
+            except Exception:
+                pass
+        json.dump(meta, open(mp, "w"), indent=1)
     first = (k["what"][0] if k["what"] else "")[:110].replace("|", "/")
     one = " ".join(notes.split())[:150].replace("|", "/")
     rows.append("| %s | %s | %s | %s | %s | %s |" % (label, "yes" if confirmed else "NO", ", ".join(detected) or "-", ", ".join(missed) or "-", ", ".join(machinery) or "-", one))
